@@ -32,6 +32,11 @@ def run(chk):
         from ..inherit import inherit
         inherit(chk, "R09.5", "c03", ["R03.1", "R03.2", "R03.3"],
                 functions={"Crystal." + f for f in ENV_QUERIES} | {"Crystal.slab"} | helper_sites(repo))
+    chk.rule("R09.7", "the invariants the descriptor is made of are rotation invariant in structure (= C08 R08.1 degree blocks with weight one, "
+                      "R08.4 fixed layout and expansion domain)", 6)
+    if chk.want("R09.7"):
+        from ..inherit import inherit
+        inherit(chk, "R09.7", "c08", ["R08.1", "R08.4"])
     chk.rule("R09.6", "the charge model behind the 'esp' surface property is entry-aligned: M[i,j] is filled from dists[i,j] with the same "
                       "index set on both sides, per-atom parameters are collected in atom order, the solved vector is cut to the atoms", 5)
     if chk.want("R09.6"):
@@ -66,6 +71,49 @@ def helper_sites(repo):
 DESCRIPTORS = (("stockholder_weight_descriptor", "sphere_stockholder_radii"), ("promolecule_density_descriptor", "sphere_promolecule_radii"))
 
 
+SENTINEL_KILLERS = ("numpy.clip", ".clip", "numpy.maximum", "numpy.fmax", "abs", "numpy.abs", "numpy.absolute", "numpy.where", "numpy.nan_to_num")
+
+
+def kernel_site(sd, ev, kern):
+    """Where a descriptor obtains its radii: directly from the root-finder kernel, or through a local helper that is handed the kernel.
+    -> dict(event, origin, helper, killers) ; killers = operations between the kernel's return and the caller that can hide the -1 sentinel."""
+    direct = [e for e in ev.events if e.kind == "call" and call_name(e.value.as_atom() or ()).endswith(kern)]
+    if len(direct) == 1:
+        return {"event": direct[0], "origin": direct[0].extra["args"][1], "helper": None, "killers": [], "hev": None}
+    for e in ev.events:
+        if e.kind != "call":
+            continue
+        a = e.value.as_atom()
+        if not a or a[0] != "call":
+            continue
+        c = a[1].as_atom()
+        if not (c and c[0] == "name" and c[1] in sd.funcs):
+            continue
+        kpos = [i for i, x in enumerate(a[2]) if x.as_atom() and x.as_atom()[0] == "name" and x.as_atom()[1].endswith(kern)]
+        if not kpos:
+            continue
+        h = c[1]
+        hev = sd.ev(h)
+        hp = hev.param_names
+        solver = hp[kpos[0]]
+        inner = [x for x in hev.events if x.kind == "call" and x.value.as_atom() and x.value.as_atom()[0] == "call"
+                 and x.value.as_atom()[1].key() == solver]
+        if len(inner) != 1:
+            raise AnalysisError(f"{SD}:{h}: expected one call of the root finder handed in as '{solver}'")
+        oa = inner[0].extra["args"][1].as_atom()
+        if not (oa and oa[0] == "name" and oa[1] in hp):
+            raise AnalysisError(f"{SD}:{h}: the origin given to the root finder is not a parameter of the helper")
+        origin = a[2][hp.index(oa[1])]
+        killers = []
+        for x in hev.events:
+            if x.kind == "call" and call_name(x.value.as_atom() or ()) in SENTINEL_KILLERS:
+                killers.append(f"line {x.lineno}: {str(x.value)[:90]}")
+            if x.kind == "store" and x.target.as_atom() and x.target.as_atom()[0] == "sub" and find_atoms(x.target.as_atom()[2][0], lambda t: t[0] in ("lt", "le")):
+                killers.append(f"line {x.lineno}: masked overwrite {str(x.target)[:70]}")
+        return {"event": e, "origin": origin, "helper": h, "killers": killers, "hev": hev}
+    return None
+
+
 def r09_1(chk, sd, dx):
     for q, kern in DESCRIPTORS:
         ev = sd.ev(q, opaque={"r", "o"})
@@ -86,8 +134,15 @@ def r09_1(chk, sd, dx):
             chk.ob("R09.1", SD, q, f"{call_name(e.value.as_atom())} runs only after the negative-radius test passed", dominated, node=e.node,
                    fingerprint=f"dominates:{call_name(e.value.as_atom())}", found=[f"{'' if p else 'not '}{c}"[:70] for c, p in e.guards])
         rdef = [v for k, v in ev.defs.items() if k[1] == "r"]
-        chk.ob("R09.1", SD, q, "the radii tested are the kernel's output for this grid",
-               bool(rdef) and kern in rdef[0].key() and ".reshape(sht.grid[0].shape)" in rdef[0].key(), found=str(rdef[0])[:120] if rdef else None)
+        site = kernel_site(sd, ev, kern)
+        if site is not None and site["helper"]:
+            chk.saw(SD, site["helper"])
+            chk.ob("R09.1", SD, q, "the radii reach the negative-radius test as the root finder returned them (only reshaped: nothing between the two "
+                   "may turn the -1 sentinel into an admissible radius)", bool(rdef) and site["helper"] in rdef[0].key() and not site["killers"],
+                   node=site["event"].node, fingerprint="sentinel-survives", found=site["killers"][:2] or str(rdef[0])[:100])
+        else:
+            chk.ob("R09.1", SD, q, "the radii tested are the kernel's output for this grid",
+                   bool(rdef) and kern in rdef[0].key() and ".reshape(sht.grid[0].shape)" in rdef[0].key(), found=str(rdef[0])[:120] if rdef else None)
     # root finders
     texts = {}
     for q, evalname in (("brents_stock", "one_weight"), ("brents_pro", "one_rho")):
@@ -142,10 +197,10 @@ def r09_1(chk, sd, dx):
 def r09_2(chk, sd, dx):
     for q, kern in DESCRIPTORS:
         ev = sd.ev(q, opaque={"o", "r", "s", "pro", "g"})
-        kc = [e for e in ev.events if e.kind == "call" and call_name(e.value.as_atom() or ()).endswith(kern)]
+        site = kernel_site(sd, ev, kern)
         pc = [e for e in ev.events if e.kind == "call" and call_name(e.value.as_atom() or ()) == "_compute_property_in_j_channel"]
-        chk.need(len(kc) == 1 and len(pc) == 1, f"{q}: radii kernel / property channel calls not found")
-        ko = kc[0].extra["args"][1]
+        chk.need(site is not None and len(pc) == 1, f"{q}: radii kernel / property channel calls not found")
+        ko = site["origin"]
         po = dict(pc[0].extra["kwargs"]).get("origin")
         if po is None and len(pc[0].extra["args"]) > 3:
             po = pc[0].extra["args"][3]
@@ -155,8 +210,9 @@ def r09_2(chk, sd, dx):
         odef = [v for k, v in ev.defs.items() if k[1] == "o"]
         chk.ob("R09.2", SD, q, "the origin defaults to the mean position of the interior atoms",
                bool(odef) and "kwargs.get('origin', numpy.mean(p_i, axis=0" in odef[0].key(), fingerprint="default-origin", found=str(odef[0])[:120] if odef else None)
-        gd = [e for e in ev.events if e.kind == "store" and e.target.key().startswith("$g[")]
-        okg = len(gd) == 3 and all(any(e.target.key() == f"$g[(slice None None None), {k}]" and e.value.key() == f"sht.grid_cartesian[{k}].flatten()" for e in gd) for k in range(3))
+        gev = site["hev"] if site["helper"] else ev
+        gd = [e for e in gev.events if e.kind == "store" and (e.target.key().startswith("$g[") or e.target.key().startswith("<g@"))]
+        okg = len(gd) == 3 and all(any(e.target.key().endswith(f"[(slice None None None), {k}]") and e.value.key() == f"sht.grid_cartesian[{k}].flatten()" for e in gd) for k in range(3))
         chk.ob("R09.2", SD, q, "grid directions are the x, y, z components of the transform's Cartesian grid, in order", okg,
                fingerprint="grid", found=[f"{e.target}={e.value}" for e in gd])
     q = "_compute_property_in_j_channel"
